@@ -192,6 +192,78 @@ CHECKS = {
             "the clause 'Thevenin impedance equals an independently built network' is NOT decided (needs complex network reduction); 1ph with "
             "a gen excluded as unsupported; relations 1e-5 relative, cross-run equality 1e-6 relative",
             "TLC-enumerated run pairs executed with calc_sc; IEC relations decided by TLC in multi-limb integer arithmetic", "§5 C18"),
+    "C05": ("exploration",
+            "EquivDef.tla holds an abstract network of NAMED elements (9 buses incl. a fused bus, a second island and a de-energised bus; lines "
+            "with parallel > 1, a transformer, impedance, ward, xward, zero-power and out-of-service elements) and every re-representation as an "
+            "operator that yields the transformed abstract net and the CORRESPONDENCE between observation keys (eq, renamed, sum, swapped ends, "
+            "fused classes, total losses); Equiv.tla enumerates transformation x target x base variant (corners + seeded RandomSubset) with model "
+            "invariants (correspondence total on common buses, sums partition the original ...). The harness builds both nets, solves both with "
+            "runpp and TLC checks every correspondence on the fixed-point observations: sn_mva, re-indexing / row permutation (real reindex_*), "
+            "splitting loads/sgens, parallel=n <-> n lines, swapped line ends, added out-of-service / zero-power elements, fused buses.",
+            "one template; tolerance 30 micro-units + 20 ppm between two solves (tolerance_mva=1e-10)",
+            "TLC-enumerated transformations applied to the implementation; correspondences computed by the spec and decided by TLC", "§5 C05/C23"),
+    "C23": ("exploration",
+            "Same specification as C05 (EquivDef/Equiv/EquivObs) with the REAL toolbox functions as transformations: create_continuous_bus_index / "
+            "create_continuous_elements_index, replace_line_by_impedance <-> replace_impedance_by_line, replace_ext_grid_by_gen, replace_ward_by_"
+            "internal_elements, replace_xward_by_internal_elements, merge_nets, select_subnet, drop_out_of_service_elements, drop_inactive_elements, "
+            "fuse_buses, merge_parallel_line; Applicable carries the documented preconditions; TLC decides every correspondence.",
+            "as C05; line -> impedance only for lines without shunt capacitance (documented), ext_grid with va_degree = 0",
+            "TLC-enumerated toolbox transformations applied with the real functions; correspondences decided by TLC", "§5 C05/C23"),
+    "C16": ("exploration",
+            "OpfDef.tla is an integer-valued OPF template (4 buses, one element of each controllable kind, optional mesh line and dcline) with the "
+            "instance data computed by the spec (Inst(cfg), serialised by TLC and read back from the built net); Opf.tla enumerates controllable "
+            "sets x AC/DC x solver options x mesh x dcline x voltage band x limit levels x branch rating x cost profile; every sampled state is "
+            "solved with runopp / rundcopp and TLC decides voltage, active, reactive, branch loading and dcline limits, fixed setpoints of "
+            "non-controllable elements, and that a power flow with the OPF dispatch reproduces the OPF result.",
+            "tolerances derived from the PIPS termination criterion (stated in OpfObs.tla); non-converged OPFs counted",
+            "TLC-enumerated OPF configurations solved by the implementation; feasibility relations decided by TLC", "§5 C16"),
+    "C17": ("exploration",
+            "OpfDef.tla states the user-side cost convention once (UserRowP / PwlAt), transcribes make_objective.py (CodeRowP/Q, CodePwlAt) and "
+            "derives where the code deviates (DevClasses); for DC OPF on radial integer instances it computes the optimum by brute force over the "
+            "integer dispatch grid (exact for linear costs, an upper bound for convex quadratic ones). Every sampled cost configuration (all "
+            "admissible cost kinds on <= 2 of 6 element types) is solved and TLC decides res_cost = sum of the user's functions at the element's "
+            "own result power, and res_cost = grid optimum where that is decided.",
+            "optimality of AC results, meshed or lossy-dcline DC cases and a lower bound for quadratic costs are not decided",
+            "TLC-enumerated cost configurations solved by the implementation; cost identity and brute-force optimum decided by TLC", "§5 C17"),
+    "C19": ("exploration",
+            "EstimationDef.tla models measurement-set structures on two templates (core of v / injection / flow measurements, redundant rows, "
+            "duplicates, order classes), a conservative sufficient observability predicate (spanning-tree search cross-checked against a "
+            "connectivity fixpoint), critical measurements, and transcribes how the code aggregates the table into the measurement vector; "
+            "Estimation.tla explores AddRedundant / Duplicate / Reorder from every observable core. Each state is instantiated with noise-free "
+            "values of a converged power flow; TLC decides success, estimated voltages and flows = power flow, invariance under order and "
+            "redundancy (pairs defined by the spec), and that no bad data is flagged / removed.",
+            "observable sets outside the conservative predicate (current-only, mixed) not required; lp agreement recorded only",
+            "TLC-explored measurement-set structures instantiated on estimate(); relations decided by TLC", "§5 C19"),
+    "C21": ("exploration",
+            "ConvertDef.tla models the conversion pipeline on a 5-bus template: which buses survive (in service, fused, energised), auxiliary buses "
+            "of open line switches, netting of PD/QD, the decisions of from_ppc, the .mat route and which fields it carries; it defines the bus "
+            "CORRESPONDENCE a round trip must preserve. Convert.tla enumerates element sets x route (to_ppc->from_ppc, to_mpc->.mat->from_mpc) "
+            "with 8 model invariants; TLC decides round trip completes, same vm/va at corresponding buses, same slack power, same total losses.",
+            "pi transformer model, no asymmetric branch data (converter scope)",
+            "TLC-enumerated element sets converted forth and back; equality through the spec's correspondence decided by TLC", "§5 C21"),
+    "C28": ("exploration",
+            "GridEqDef.tla transcribes _determine_bus_groups on a 7-bus template (two rings, tie lines, spur), the required outcome of a call and "
+            "structural feature classes of the constructions; GridEq.tla enumerates (boundary, internal seeds) x {ward, xward, rei} x network "
+            "variants with invariants (groups partition the buses, valid boundary, slack retained ...). TLC decides: an equivalent is returned, "
+            "same vm/va at internal and boundary buses, original network unchanged.",
+            "REI equivalents solved at 1e-8 MVA where 1e-9 is unreachable; non-converged equivalents counted",
+            "TLC-enumerated boundary partitions run through get_equivalent; voltage equality decided by TLC", "§5 C28"),
+    "C32": ("model_checking",
+            "Curve.tla is a state machine over one characteristic object (class x interpolator kind x fill option x container x data shape chosen "
+            "by TLC as small integer sequences; actions Eval (lazy interpolator cache) and Ser(route): net JSON, object JSON, deepcopy, pickle); "
+            "CurveDef.tla chooses the abscissae and computes the required values (y_i at support points, enclosure by neighbouring support values "
+            "for shape-preserving kinds on monotone data, an exact model of the linear/step kinds). TLC decides on the evaluations of the real "
+            "objects: evaluates, support points reproduced, shape preserved, unchanged by every serialisation route (up to two in sequence).",
+            "tolerances stated in CurveObs.tla; scalar and vector calls both checked",
+            "TLC-generated characteristic histories replayed on real objects; values decided by TLC", "§5 C32"),
+    "C33": ("model_checking",
+            "DerDef.tla transcribes the DERController pipeline in integer units (q models, PQ/QV/PQV areas incl. the VDE-AR-N 4105/4110/4120 variants "
+            "and STATCOM, area clipping, saturate_sn_mva with q / p priority, damping, convergence); Der.tla runs the control loop over area x "
+            "operating-point region (indices into per-area corner tables) x q model x saturation x damping with model invariants (target / step / "
+            "settled feasible, priority kept ...). Every state runs the real run_control with the controller's control_step wrapped; TLC decides "
+            "p^2 + q^2 <= sn^2 and q within the area object's own q_flexibility(p, v) after every step, and the settled state.",
+            "VDE 4130 areas and cosphi(V)/cosphi(P) curve models not covered; with damping the per-step clauses are required from a feasible start",
+            "TLC-explored controller configurations replayed on run_control; capability relations decided by TLC", "§5 C33"),
 }
 
 NOT_APPLICABLE = {
